@@ -7,6 +7,7 @@ import importlib
 import json
 import multiprocessing
 import os
+import signal
 import sys
 import time
 import traceback
@@ -32,6 +33,14 @@ class Violation(Exception):
 
 class HarnessError(Exception):
     pass
+
+
+class CaseTimeout(BaseException):
+    """Raised by SIGALRM inside a generated case (BaseException so that no `except Exception` of a check swallows it)."""
+
+
+def _case_alarm(signum: Any, frame: Any) -> None:
+    raise CaseTimeout()
 
 
 class Stats:
@@ -256,6 +265,7 @@ def _shard_worker_inner(check_id: str, part_name: str, tier: str, seed: int, sha
         holder: Dict[str, Any] = {}
 
         strat = part.strategy(tier)
+        budget = int(os.environ.get("BPVERIF_CASE_BUDGET_S", "240" if tier == "quick" else "1200"))
 
         @hypothesis.seed(seed * 1000 + shard)
         @settings(
@@ -270,12 +280,20 @@ def _shard_worker_inner(check_id: str, part_name: str, tier: str, seed: int, sha
         @given(strat)
         def test(case: Any) -> None:
             stats.examples += 1
+            old_handler = signal.signal(signal.SIGALRM, _case_alarm)
+            signal.alarm(budget)
             try:
                 part.run_case(case, stats)
+            except CaseTimeout:
+                # a time budget is never a correctness signal: the case is inconclusive
+                stats.inconclusive_(f"case exceeded the {budget} s per-case time budget (generated case too expensive)")
             except Violation as v:
                 holder["case"] = case
                 holder["violation"] = v
                 raise
+            finally:
+                signal.alarm(0)
+                signal.signal(signal.SIGALRM, old_handler)
 
         try:
             test()
